@@ -621,6 +621,48 @@ func checkC18(c *Ctx) {
 			fmt.Sprintf("numeric options are not accepted as %v: a number written the YAML way fails at start-up", missing))
 	}
 
+	// 4b. a configured number is also the number that is used: every option an option parser looks up
+	//     reaches — as a value, not merely as something that was validated — a result of one of the
+	//     parser's successful returns.  (`level, ok := configInt(raw)` inside an `if present` block
+	//     declares a new variable: the configured level is checked and thrown away, the default runs.)
+	for _, fnName := range []string{"parseByteLimit", "parseGzipConfig"} {
+		fn := c.byteLimitParser()
+		if fnName == "parseGzipConfig" {
+			fn = c.gzipOptionParser()
+		}
+		if fn == nil {
+			continue // reported above
+		}
+		var lookups []*ssa.Lookup
+		instrsOf(fn, func(in ssa.Instruction) {
+			if lk, ok := in.(*ssa.Lookup); ok {
+				if mt, isMap := lk.X.Type().Underlying().(*types.Map); isMap && mt.Key().String() == "string" {
+					lookups = append(lookups, lk)
+				}
+			}
+		})
+		var rets []*ssa.Return
+		instrsOf(fn, func(in ssa.Instruction) {
+			if r, ok := in.(*ssa.Return); ok && len(r.Results) > 0 && isConstNil(r.Results[len(r.Results)-1]) {
+				rets = append(rets, r)
+			}
+		})
+		for _, lk := range lookups {
+			key := p.Desc(lk.Index, nil)
+			used := false
+			for _, r := range rets {
+				for _, res := range r.Results[:len(r.Results)-1] {
+					if c.flowsFrom(res, func(v ssa.Value) bool { return v == ssa.Value(lk) }) {
+						used = true
+					}
+				}
+			}
+			c.Check(used, "option-value-used", "plugins."+fnName+"/"+key, p.InstrPos(lk), "the configured value reaches a result of a successful return",
+				"the option "+key+" is looked up and validated, but no successful return of "+fn.Name()+" yields a value derived from it: whatever is configured, the plugin runs with its built-in default (a variable re-declared with := in an inner scope?)")
+		}
+		c.Floor("option-value-used", len(lookups), 1, "option look-ups in "+fnName)
+	}
+
 	// 5. shipped files
 	registered := map[string]bool{}
 	for _, fn := range p.Funcs {
